@@ -39,6 +39,12 @@ CLAIMS = {
              'or double-released, free at session end, and every connection handed out by the pool is returned or closed exactly once.',
         note='Thread schedules (two or three sessions) are NOT covered: outside this technique. Ground obligations (decided by evaluation after path enumeration). '
              'Trusted: GhostLock as single-thread model of threading.Lock; DB-API stubs return-or-raise; psycopg2 stub module only supplies exception classes.'),
+    'C36': dict(
+        text='Proof (all integer process ids, all paths) for Pool.connect (inherited by SQLitePool and PGPool) and OraPool.connect: a connection or session '
+             'pool recorded under a different pid is never returned, receives no call at all, is parked so that it is not finalised in the child, and the pool '
+             'records the current pid; with an equal pid the pooled connection is reused.',
+        note='Per-call guarantee only: a fork inside an open session (child inherits cache.connection) and cross-process visibility of data are not covered. '
+             'os.getpid is an effect returning an arbitrary int; driver modules are stubs supplying recording objects.'),
 }
 
 _NOT_BUILT = 'within reach of the technique per DESIGN.md, check not built yet'
